@@ -282,6 +282,23 @@ pub fn gen_case(rng: &mut Rng) -> Case {
 		1 => format!("json! {{ {} }}", rust),
 		_ => format!("json![{}]", rust),
 	};
+	// a quarter of the texts spell every non-ASCII character as \uXXXX escapes (surrogate pairs included)
+	let json = if g.rng.chance(1, 4) {
+		let mut t = String::with_capacity(json.len());
+		let mut units = [0u16; 2];
+		for c in json.chars() {
+			if c.is_ascii() {
+				t.push(c);
+			} else {
+				for u in c.encode_utf16(&mut units) {
+					t.push_str(&format!("\\u{:04X}", u));
+				}
+			}
+		}
+		t
+	} else {
+		json
+	};
 	Case { rust, json, exact, single }
 }
 
@@ -304,17 +321,31 @@ fn same(a: &Value, b: &Value, exact: bool, single: bool) -> bool {
 		_ => a == b,
 	}
 }
+fn lookups_agree(a: &Value, b: &Value) -> bool {
+	match (a, b) {
+		(Value::Array(x), Value::Array(y)) => x.len() == y.len() && x.iter().zip(y.iter()).all(|(p, q)| lookups_agree(p, q)),
+		(Value::Object(x), Value::Object(y)) => {
+			let mut ok = x.len() == y.len();
+			for e in y.iter() {
+				let k = e.key.as_str();
+				// positions are compared, so values need not be comparable exactly
+				ok &= x.indexes_of(k).collect::<Vec<_>>() == y.indexes_of(k).collect::<Vec<_>>();
+				ok &= x.index_of(k) == y.index_of(k);
+				ok &= x.get_with_index(k).map(|(i, _)| i).collect::<Vec<_>>() == y.get_with_index(k).map(|(i, _)| i).collect::<Vec<_>>();
+				ok &= x.get(k).count() == y.get(k).count() && x.contains_key(k);
+				ok &= x.get_unique(k).is_ok() == y.get_unique(k).is_ok();
+			}
+			ok && x.iter().zip(y.iter()).all(|(p, q)| lookups_agree(&p.value, &q.value))
+		}
+		_ => true,
+	}
+}
 fn check(i: usize, built: Value, text: &str, exact: bool, single: bool) {
 	match Value::parse_str(text) {
 		Ok((parsed, _)) => {
 			let ok = if exact { built == parsed } else { same(&built, &parsed, false, single) };
-			// the index of the macro-built object must answer queries too
-			let mut q_ok = true;
-			if let (Value::Object(a), Value::Object(b)) = (&built, &parsed) {
-				for e in b.iter() {
-					q_ok &= a.get(e.key.as_str()).count() == b.get(e.key.as_str()).count();
-				}
-			}
+			// the index of every macro-built object must answer queries like that of the parsed one
+			let q_ok = lookups_agree(&built, &parsed);
 			if ok && q_ok { println!("CASE {} ok", i) } else { println!("CASE {} FAIL built={} parsed={} lookups_agree={}", i, built, parsed, q_ok) }
 		}
 		Err(e) => println!("CASE {} FAIL text-does-not-parse {:?}", i, e),
@@ -496,6 +527,12 @@ pub fn run(cfg: &Config) -> i32 {
 					let jentries: Vec<String> = (0..k).map(|j| format!("\"k{}\":{}", j % 30, items[j])).collect();
 					cases.push(Case { rust: format!("json!({{{}{}}})", entries.join(", "), t), json: format!("{{{}}}", jentries.join(",")), exact: true, single: false });
 					cases.push(Case { rust: format!("json!({{\"head\": null, (\"p\"): {{}}, {}{}}})", entries.join(", "), t), json: format!("{{\"head\":null,\"p\":{{}},{}}}", jentries.join(",")), exact: true, single: false });
+					if !trailing {
+						// the same run over five keys only: many duplicates of every key
+						let entries: Vec<String> = (0..k).map(|j| format!("\"d{}\": {}", (j * 3) % 5, items[j])).collect();
+						let jentries: Vec<String> = (0..k).map(|j| format!("\"d{}\":{}", (j * 3) % 5, items[j])).collect();
+						cases.push(Case { rust: format!("json!({{{}}})", entries.join(", ")), json: format!("{{{}}}", jentries.join(",")), exact: true, single: false });
+					}
 				}
 			}
 		}
@@ -527,7 +564,7 @@ pub fn run(cfg: &Config) -> i32 {
 		cfg,
 		EvidenceMeta {
 			id: "C19",
-			rule: "a case is one json! invocation over a generated document (nesting up to 4, optional trailing commas at every level incl. after nested containers, string literals of every character class, null/true/false, unsuffixed i32 integers incl. negative ones, suffixed integers of every width at their bounds, spelling-stable floats compared exactly and exponent / trailing-zero floats, the shortest spelling of random doubles and of doubles with few significant bits (widened singles, dyadic fractions) compared as the same double, f32-suffixed literals (fixed ones and the shortest spelling of random singles) compared as the same single, duplicate keys, parenthesized / String::from / concat! / const keys, the three macro delimiters; plus arrays and objects of exactly k scalar literals for every k in 1..40 with and without a trailing comma) emitted as Rust source together with the matching JSON text; the programs are compiled against the current tree and executed, each comparing the constructed value with Value::parse_str of the text (and key lookups on the constructed object); a compile error attributed to an invocation is a violation; distinct invocations counted by hash",
+			rule: "a case is one json! invocation over a generated document (nesting up to 4, optional trailing commas at every level incl. after nested containers, string literals of every character class, null/true/false, unsuffixed i32 integers incl. negative ones, suffixed integers of every width at their bounds, spelling-stable floats compared exactly and exponent / trailing-zero floats, the shortest spelling of random doubles and of doubles with few significant bits (widened singles, dyadic fractions) compared as the same double, f32-suffixed literals (fixed ones and the shortest spelling of random singles) compared as the same single, duplicate keys, parenthesized / String::from / concat! / const keys, the three macro delimiters; plus arrays and objects of exactly k scalar literals for every k in 1..40 with and without a trailing comma) emitted as Rust source together with the matching JSON text; the programs are compiled against the current tree and executed, each comparing the constructed value with Value::parse_str of the text (written raw or, for a quarter of the cases, with every non-ASCII character as \\uXXXX escapes), and the positions every key lookup reports on every object of the constructed value with those on the parsed one; a compile error attributed to an invocation is a violation; distinct invocations counted by hash",
 			exhaustive: false,
 			assumptions: vec!["rustc's macro expander is part of the trusted base; a float literal reaches the macro as an f64, so only shortest-round-trip spellings without exponent are required to be preserved exactly".into()],
 			extra: json!({"batches": n_batches, "invocations_per_batch": per}),
